@@ -710,9 +710,168 @@ fn value_enum(st: &mut Stats) {
     }
 }
 
+// ------------------------------------------------------------------ update frame over subcommand fields
+//
+// Variants hold optional fields only (a struct-field subcommand keeps its variants' required
+// arguments required during an update, and bool/counter/defaulted fields fall under F9).
+
+#[derive(Subcommand, Clone, Debug, PartialEq)]
+pub enum SubU {
+    Add {
+        #[arg(long)]
+        a: Option<u32>,
+        #[arg(long)]
+        b: Option<u32>,
+        #[arg(long)]
+        t: Vec<String>,
+    },
+    Del {
+        #[arg(long)]
+        k: Option<String>,
+        #[arg(long)]
+        n: Option<i16>,
+    },
+}
+#[derive(Parser, Clone, Debug, PartialEq)]
+#[command(name = "u")]
+pub struct U {
+    #[arg(long)]
+    top: Option<u32>,
+    #[command(subcommand)]
+    cmd: Option<SubU>,
+}
+#[derive(Parser, Clone, Debug, PartialEq)]
+#[command(name = "u2")]
+pub struct U2 {
+    #[arg(long)]
+    top: Option<u32>,
+    #[command(subcommand)]
+    cmd: SubU,
+}
+
+fn arb_subu(rng: &mut Rng) -> SubU {
+    if rng.coin() {
+        SubU::Add { a: opt(rng, |r| r.below(100) as u32), b: opt(rng, |r| r.below(100) as u32), t: vecn(rng, 0, 2, word) }
+    } else {
+        SubU::Del { k: opt(rng, word), n: opt(rng, |r| r.below(100) as i16 - 50) }
+    }
+}
+
+/// (tokens naming a random subset of the variant's set fields, the variant restricted to that subset)
+fn subu_subset(rng: &mut Rng, y: &SubU) -> (Vec<String>, SubU) {
+    match y {
+        SubU::Add { a, b, t } => {
+            let (ka, kb, kt) = (rng.coin(), rng.coin(), rng.coin());
+            let mut v = vec!["add".to_string()];
+            let na = a.filter(|_| ka);
+            let nb = b.filter(|_| kb);
+            let nt = if kt { t.clone() } else { vec![] };
+            if let Some(a) = na {
+                v.push(format!("--a={}", a));
+            }
+            if let Some(b) = nb {
+                v.push(format!("--b={}", b));
+            }
+            for x in &nt {
+                v.push("--t".into());
+                v.push(x.clone());
+            }
+            (v, SubU::Add { a: na, b: nb, t: nt })
+        }
+        SubU::Del { k, n } => {
+            let (kk, kn) = (rng.coin(), rng.coin());
+            let mut v = vec!["del".to_string()];
+            let nk = k.clone().filter(|_| kk);
+            let nn = n.filter(|_| kn);
+            if let Some(k) = &nk {
+                v.push(format!("--k={}", k));
+            }
+            if let Some(n) = nn {
+                v.push(format!("--n={}", n));
+            }
+            (v, SubU::Del { k: nk, n: nn })
+        }
+    }
+}
+
+/// the frame rule: same variant -> named fields replaced, the others kept; another variant -> the
+/// value printed on the line
+fn subu_expected(held: Option<&SubU>, named: &SubU) -> SubU {
+    match (held, named) {
+        (Some(SubU::Add { a, b, t }), SubU::Add { a: na, b: nb, t: nt }) => SubU::Add { a: na.or(*a), b: nb.or(*b), t: if nt.is_empty() { t.clone() } else { nt.clone() } },
+        (Some(SubU::Del { k, n }), SubU::Del { k: nk, n: nn }) => SubU::Del { k: nk.clone().or(k.clone()), n: nn.or(*n) },
+        _ => named.clone(),
+    }
+}
+
+fn update_subcommands(rng: &mut Rng, st: &mut Stats) {
+    st.count("type.U");
+    let top_x = opt(rng, |r| r.below(1000) as u32);
+    let top_y = opt(rng, |r| r.below(1000) as u32);
+    let held = arb_subu(rng);
+    let name_top = rng.coin();
+    let name_sub = rng.chance(3, 4);
+    let y = arb_subu(rng);
+    let mut uargv = vec!["prog".to_string()];
+    if let (true, Some(t)) = (name_top, top_y) {
+        uargv.push(format!("--top={}", t));
+    }
+    let want_top = if name_top && top_y.is_some() { top_y } else { top_x };
+    let (toks, named) = subu_subset(rng, &y);
+    if name_sub {
+        uargv.extend(toks);
+    }
+    let same_variant = std::mem::discriminant(&held) == std::mem::discriminant(&y);
+    let stratum = if !name_sub {
+        "no-subcommand-named"
+    } else if same_variant {
+        "same-variant"
+    } else {
+        "other-variant"
+    };
+    st.eval();
+    st.nontrivial(mix(hash_str("U"), hash_str(&format!("{:?}{:?}{:?}", held, top_x, uargv))));
+    // Option<SubU>, held Some / None
+    let held_opt = if rng.chance(3, 4) { Some(held.clone()) } else { None };
+    let mut u = U { top: top_x, cmd: held_opt.clone() };
+    match catch(|| u.try_update_from(uargv.clone())) {
+        Err(p) => st.violation(format!("panic:update@{}", p.loc), format!("{} | U argv={:?}", p.msg, uargv)),
+        Ok(Err(e)) => {
+            // an update that names no subcommand while none is held has nothing to build one from
+            if !(held_opt.is_none() && !name_sub) {
+                st.violation("c15:update-rejected", format!("U: update of {:?} with {:?} rejected: {:?}", held_opt, uargv, e.kind()));
+            }
+        }
+        Ok(Ok(())) => {
+            st.count(&format!("update.sub.option.{}", stratum));
+            let want = U { top: want_top, cmd: if name_sub { Some(subu_expected(held_opt.as_ref(), &named)) } else { held_opt.clone() } };
+            if u != want {
+                let sig = if u.cmd != want.cmd { "c15:update:subcommand-field-wrong" } else { "c15:update:named-field-wrong" };
+                st.violation(format!("{}:{}", sig, stratum), format!("U: {:?} updated with {:?} is {:?}, expected {:?}", U { top: top_x, cmd: held_opt.clone() }, uargv, u, want));
+            }
+        }
+    }
+    // plain SubU field
+    let mut u2 = U2 { top: top_x, cmd: held.clone() };
+    st.eval();
+    match catch(|| u2.try_update_from(uargv.clone())) {
+        Err(p) => st.violation(format!("panic:update@{}", p.loc), format!("{} | U2 argv={:?}", p.msg, uargv)),
+        Ok(Err(e)) => st.violation("c15:update-rejected", format!("U2: update of {:?} with {:?} rejected: {:?}", held, uargv, e.kind())),
+        Ok(Ok(())) => {
+            st.count(&format!("update.sub.plain.{}", stratum));
+            let want = U2 { top: want_top, cmd: if name_sub { subu_expected(Some(&held), &named) } else { held.clone() } };
+            if u2 != want {
+                let sig = if u2.cmd != want.cmd { "c15:update:subcommand-field-wrong" } else { "c15:update:named-field-wrong" };
+                st.violation(format!("{}:{}", sig, stratum), format!("U2: {:?} updated with {:?} is {:?}, expected {:?}", U2 { top: top_x, cmd: held.clone() }, uargv, u2, want));
+            }
+        }
+    }
+}
+
 pub fn case(seed: u64, st: &mut Stats) {
     let mut rng = Rng::new(seed);
-    match rng.below(9) {
+    match rng.below(10) {
+        9 => update_subcommands(&mut rng, st),
         0 => check::<A>(&mut rng, st),
         1 => check::<B>(&mut rng, st),
         2 => check::<C>(&mut rng, st),
